@@ -5,7 +5,7 @@
    C20/AccessModel.v, tied to the implementation by checks/C20.py.
    This file contains only statements, `exact` proofs and Print Assumptions. *)
 From Coq Require Import String ZArith List Bool.
-From ScV Require Import Base.CInt Gen.ApiC20 Gen.AccessC20 C20.ApiProofs C20.ApiCheck C20.AccessModel C20.AccessProofs.
+From ScV Require Import Base.CInt Gen.ApiC20 Gen.AccessC20 Gen.UseC20 C20.ApiProofs C20.ApiCheck C20.AccessModel C20.AccessProofs C20.UseProofs C20.UseGenProofs.
 Import ListNotations.
 Local Open Scope Z_scope.
 
@@ -128,7 +128,7 @@ Theorem C20_other_objects_untouched : forall mpi junk w o w1 out k,
   (match o with
    | OSetType k' _ | OGetType k' | OSetEager k' _ | OGetEager k' | OSetStats k' _ | OGetStats k' | OGetComm k'
    | OSetWidths k' _ _ _ | OGetWidths k' _ _ _ _ _ _ | OSetNr k' _ | OGetNr k' | OSetPk k' _ | OGetPk k'
-   | OSetCb k' _ _ | OGetCb k' | ONew k' _ | ODestroy k' => k' <> k
+   | OSetCb k' _ _ | OGetCb k' | ONew k' _ | ODestroy k' | OUse k' _ _ | OUseV k' _ => k' <> k
    | _ => True end) ->
   obj w1 k = obj w k.
 Proof. exact other_objects_untouched. Qed.
@@ -175,6 +175,118 @@ Theorem C20_spacing : forall mpi junk w a b,
 Proof. exact spacing_columns_spec. Qed.
 Print Assumptions C20_spacing.
 
+(* --- part 2: set ... USE ... get ------------------------------------------------------------------- *)
+(* the operations that use a configured object store nothing: a notification round (sc_notify_payload /
+   sc_notify_payloadv) leaves every controller and every public default as it was *)
+Theorem C20_use_identity : forall mpi junk w k mode pay w1 out,
+  (step mpi junk w (OUse k mode pay) = Some (w1, out) \/ step mpi junk w (OUseV k mode) = Some (w1, out)) ->
+  out = [] /\ (forall j, obj w1 j = obj w j) /\ same_defaults w w1.
+Proof. exact round_identity. Qed.
+Print Assumptions C20_use_identity.
+
+(* shared-array traffic keeps a flavour that was set (a communicator without one gets sc_shmem_default_type with MPI) and
+   touches no controller; without MPI and on a communicator whose flavour was set it changes nothing at all *)
+Theorem C20_shuse_identity : forall mpi junk w comm v w1 out,
+  step mpi junk w (OShUse comm v) = Some (w1, out) ->
+  out = [] /\ w_objs w1 = w_objs w
+  /\ (forall c t, find c (w_shmem w) = Some t -> find c (w_shmem w1) = Some t)
+  /\ (mpi = false -> w1 = w)
+  /\ (forall t, find comm (w_shmem w) = Some t -> w1 = w).
+Proof. exact shuse_identity. Qed.
+Print Assumptions C20_shuse_identity.
+
+(* parsing / printing / adding options between sc_options_set_spacing and the usage message does not move the columns *)
+Theorem C20_spacing_used : forall mpi junk w a b u, step mpi junk w (OSpacingU a b u) = step mpi junk w (OSpacing a b).
+Proof. exact spacing_used. Qed.
+Print Assumptions C20_spacing_used.
+
+(* one step that is not a writer of field f of controller k (see `writes`: sc_notify_new / destroy / set_type of k and
+   the setter of f on k are the writers; getters, rounds, the other setters, other controllers, public defaults, shmem and
+   options operations are not) leaves that field as it was ... *)
+Theorem C20_step_keeps_field : forall mpi junk w o w1 out k f,
+  step mpi junk w o = Some (w1, out) -> writes o k f = false -> field_of w1 k f = field_of w k f.
+Proof. exact step_keeps_field. Qed.
+Print Assumptions C20_step_keeps_field.
+
+(* ... and so does every history of such steps *)
+Theorem C20_history_keeps_field : forall mpi junk k f ops w w2 outs,
+  run mpi junk w ops = Some (w2, outs) -> no_writer k f ops = true -> field_of w2 k f = field_of w k f.
+Proof. exact history_keeps_field. Qed.
+Print Assumptions C20_history_keeps_field.
+
+(* THE property over histories: setter s stores `vals` in field f of controller k; then ANY history without a writer of that
+   field runs (rounds on this and other controllers, other setters, getters, ...); then the getter of that field prints
+   exactly `vals` (widths: each output argument its own field, a NULL output keeps its previous content) *)
+Theorem C20_last_stored : forall mpi junk w s k f vals w1 o1 mid w2 outs g view,
+  stores s = Some (k, f, vals) -> step mpi junk w s = Some (w1, o1) ->
+  run mpi junk w1 mid = Some (w2, outs) -> no_writer k f mid = true ->
+  reads g = Some (k, f, view) ->
+  exists w3, step mpi junk w2 g = Some (w3, view vals) /\ (forall j, obj w3 j = obj w2 j) /\ same_defaults w2 w3.
+Proof. exact last_stored. Qed.
+Print Assumptions C20_last_stored.
+
+Theorem C20_last_stored_type : forall mpi junk w k t w1 o1 mid w2 outs,
+  step mpi junk w (OSetType k t) = Some (w1, o1) ->
+  run mpi junk w1 mid = Some (w2, outs) -> no_writer k FType mid = true ->
+  exists w3, step mpi junk w2 (OGetType k) = Some (w3, [resolve w t]).
+Proof. exact last_stored_type. Qed.
+Print Assumptions C20_last_stored_type.
+
+(* the shared-array flavour of a communicator (MPI) after any history without another sc_shmem_set_type on it *)
+Theorem C20_shmem_last_stored : forall junk w comm t w1 o1 mid w2 outs,
+  step true junk w (OShSet comm t) = Some (w1, o1) ->
+  run true junk w1 mid = Some (w2, outs) -> no_shset comm mid = true ->
+  step true junk w2 (OShGet comm) = Some (w2, [t]).
+Proof. exact shmem_last_stored. Qed.
+Print Assumptions C20_shmem_last_stored.
+
+(* --- part 2: generated slices of the writers outside the setters, and the census of all writers -------- *)
+(* every store into a field of a controller, every address taken of a configuration field and every call of a function
+   that writes configuration, in all of sc_notify.c (likewise the spacing fields in sc_options.c and the attribute calls in
+   sc_shmem.c, MPI configuration), is one of these: a function that runs a round and stores (or re-initialises on first
+   use) changes the generated list *)
+Theorem C20_gen_writers :
+  c20_notify_writers = expected_notify_writers
+  /\ c20_spacing_writers = expected_spacing_writers
+  /\ c20_shmem_writers = expected_shmem_writers.
+Proof. exact gen_writers. Qed.
+Print Assumptions C20_gen_writers.
+
+Theorem C20_gen_only_setters_write : forall fn what, In (fn, what) c20_notify_writers -> In fn config_writer_functions.
+Proof. exact gen_only_setters_write. Qed.
+Print Assumptions C20_gen_only_setters_write.
+
+Theorem C20_gen_ranges_init : forall w junk,
+  (let '(nr, pk) := slice_sc_notify_ranges_init (w_nranges w) (w_pkgid w) in URanges nr pk) = init_data w junk c20_SC_NOTIFY_RANGES.
+Proof. exact gen_ranges_init. Qed.
+Print Assumptions C20_gen_ranges_init.
+
+Theorem C20_gen_nary_init : forall w junk comm r1 size r2 rank h,
+  let '(f_comm, f_size, f_rank, a_size, a_rank, s_notify, s_top, s_int, s_bot) :=
+      slice_sc_notify_nary_init comm r1 size r2 rank h (w_ntop w) (w_nint w) (w_nbot w) in
+  f_comm = comm /\ f_size = size /\ f_rank = rank /\ a_size = comm /\ a_rank = comm /\ s_notify = h
+  /\ (let '(t, i, bo) := sc_notify_nary_set_widths s_top s_int s_bot in UNary t i bo) = init_data w junk c20_SC_NOTIFY_NARY.
+Proof. exact gen_nary_init. Qed.
+Print Assumptions C20_gen_nary_init.
+
+(* the model's set_type IS the generated body of sc_notify_set_type with the generated initialisers plugged in *)
+Theorem C20_gen_set_type : forall w junk n t h,
+  supports_type (resolve w t) = true ->
+  let '(ty, ret, rc, ra, nc, na) := slice_sc_notify_set_type (sc_notify_get_type (n_type n)) t (w_type_default w) h (n_type n) in
+  set_type w junk n t = mkn (n_comm n) ty (n_eager n) (n_stats n) (data_after_set_type w junk n ty rc nc)
+  /\ ret = 0 /\ (rc = 1 -> ra = h) /\ (nc = 1 -> na = h)
+  /\ (rc = 1 \/ nc = 1 -> n_type n <> ty).
+Proof. exact gen_set_type. Qed.
+Print Assumptions C20_gen_set_type.
+
+Theorem C20_gen_new : forall w p comm,
+  supports_type (w_type_default w) = true ->
+  let '(ret, f_comm, f_type, f_eager, a_notify, a_type) := slice_sc_notify_new p comm (w_eager_default w) (w_type_default w) in
+  ret = p /\ a_notify = p
+  /\ notify_new w comm = set_type w (0, 0) (mkn f_comm f_type f_eager 0 UOther) a_type.
+Proof. exact gen_new. Qed.
+Print Assumptions C20_gen_new.
+
 (* --- hypotheses are satisfiable -------------------------------------------------------------------- *)
 Example C20_ex_run :
   run false (7, 9) init_world
@@ -182,4 +294,13 @@ Example C20_ex_run :
        OSetType 0 7; OGetNr 0; OGetPk 0; OSetType 0 2; OGetWidths 0 1 1 1 0 0 0; OSetType 0 8; OSetCb 0 11 12; OGetCb 0; OGetComm 0]
   = Some (mkw 3 1024 2 2 2 25 (-1) [(0, mkn 1 8 1024 0 (USuperset 11 12))] [],
           [[]; [0]; []; [3; -8; 7]; [0]; [3; 5; 7]; [0]; [25]; [-1]; [0]; [2; 2; 2]; [0]; []; [11; 12]; [1]]).
+Proof. vm_compute. reflexivity. Qed.
+
+(* the history of the demonstration: select n-ary, store widths, first round, read; store again, round, read *)
+Example C20_ex_use :
+  run true (0, 0) init_world
+      [ONew 0 0; OSetType 0 2; OSetWidths 0 3 4 5; OUse 0 0 0; OGetWidths 0 1 1 1 0 0 0; OUseV 0 3; OSetEager 0 7; OUse 0 1 2;
+       OGetWidths 0 1 0 1 (-7) (-8) (-9); OShSet 0 1; OShUse 0 7; OShGet 0; OShUse 1 1; OShGet 1; OSpacingU 30 50 15]
+  = Some (mkw 3 1024 2 2 2 25 (-1) [(0, mkn 0 2 7 0 (UNary 3 4 5))] [(1, 0); (0, 1)],
+          [[]; [0]; []; []; [3; 4; 5]; []; []; []; [3; -8; 5]; []; []; [1]; []; [0]; [30; 50]]).
 Proof. vm_compute. reflexivity. Qed.
